@@ -573,8 +573,12 @@ impl QueryEngine {
     ) {
         match plan {
             LogicalPlan::Filter(filter) => {
-                if let Some(pred) = Self::convert_expr_to_predicate(&filter.predicate) {
-                    predicates.push(pred);
+                // Chunk statistics are keyed by base-table column name, so a filter is only
+                // usable if the names it sees are the base table's own columns.
+                if Self::plan_preserves_column_names(&filter.input) {
+                    if let Some(pred) = Self::convert_expr_to_predicate(&filter.predicate) {
+                        predicates.push(pred);
+                    }
                 }
                 Self::extract_predicates_from_plan(&filter.input, predicates);
             }
@@ -591,6 +595,34 @@ impl QueryEngine {
                 Self::extract_predicates_from_plan(&agg.input, predicates);
             }
             _ => {}
+        }
+    }
+
+    /// True if every column name visible above `plan` denotes the base-table column of that
+    /// name (no aliasing projection, join or set operation in between).
+    fn plan_preserves_column_names(plan: &LogicalPlan) -> bool {
+        match plan {
+            LogicalPlan::TableScan(_) => true,
+            LogicalPlan::Filter(filter) => Self::plan_preserves_column_names(&filter.input),
+            LogicalPlan::Sort(sort) => Self::plan_preserves_column_names(&sort.input),
+            LogicalPlan::Limit(limit) => Self::plan_preserves_column_names(&limit.input),
+            LogicalPlan::SubqueryAlias(alias) => Self::plan_preserves_column_names(&alias.input),
+            LogicalPlan::Projection(proj) => {
+                proj.expr.iter().all(|expr| match expr {
+                    Expr::Column(_) => true,
+                    Expr::Wildcard { options, .. } => {
+                        options.replace.is_none() && options.rename.is_none()
+                    }
+                    _ => false,
+                }) && Self::plan_preserves_column_names(&proj.input)
+            }
+            LogicalPlan::Aggregate(agg) => {
+                agg.group_expr
+                    .iter()
+                    .all(|expr| matches!(expr, Expr::Column(_)))
+                    && Self::plan_preserves_column_names(&agg.input)
+            }
+            _ => false,
         }
     }
 
